@@ -131,7 +131,20 @@ fn cap<V: Values>(v: V) -> Vec<u8> { v.to_captured(Mode::Der).as_slice().to_vec(
 
 //------------ renderers for the value types accessors return -----------------
 
-fn r_time(t: Time) -> String { format!("{}s+{}ns", t.timestamp(), t.timestamp_subsec_nanos()) }
+thread_local! {
+    /// (compare times at whole seconds?, sub-second parts dropped so far)
+    static WHOLE_SECONDS: std::cell::Cell<(bool, u64)> = const { std::cell::Cell::new((false, 0)) };
+}
+/// DER times carry whole seconds. A time with a sub-second part (everything
+/// derived from `Time::now()`) is not a profile-conforming input, so for the
+/// library-made inputs -- and only there -- such a time is compared with its
+/// twin at whole-second granularity; the occurrences are counted, not judged.
+fn r_time(t: Time) -> String {
+    let ns = t.timestamp_subsec_nanos();
+    let (whole, n) = WHOLE_SECONDS.with(|w| w.get());
+    if whole && ns != 0 { WHOLE_SECONDS.with(|w| w.set((whole, n + 1))); return format!("{}s+0ns", t.timestamp()) }
+    format!("{}s+{}ns", t.timestamp(), ns)
+}
 fn r_validity(v: Validity) -> String { format!("{}..{}", r_time(v.not_before()), r_time(v.not_after())) }
 fn r_name(n: &Name) -> String { format!("{} rpki={:?} router={:?}", hex(&cap(n.encode_ref())),
     n.inspect_rpki(true).map_err(|e| e.to_string()), n.inspect_router(true).map_err(|e| e.to_string())) }
@@ -366,6 +379,8 @@ struct CaseResult {
     label: String,
     /// hash of the produced encoding (distinctness measure)
     der_hash: u64,
+    /// things counted but not judged (see the space's rule text)
+    counted: u64,
 }
 impl CaseResult {
     fn fail(&mut self, oracle: &str, detail: impl Into<String>) { self.fails.push((oracle.to_string(), detail.into())) }
@@ -388,6 +403,7 @@ fn time_tags(derb: &[u8]) -> String {
 fn run_cases<C: Sync>(ctx: &Ctx, sp: &Space, obj: &str, cases: &[C],
                       wit: impl Fn(&C) -> String + Sync, f: impl Fn(&C) -> CaseResult + Sync) {
     let results: Vec<CaseResult> = cases.par_iter().map(|c| {
+        WHOLE_SECONDS.with(|w| w.set((false, 0)));
         match guard(|| f(c)) {
             Ok(r) => r,
             Err(p) => { let mut r = CaseResult::default(); r.label = "harness-panic".into(); r.fail("build", format!("unguarded {p}")); r }
@@ -395,6 +411,8 @@ fn run_cases<C: Sync>(ctx: &Ctx, sp: &Space, obj: &str, cases: &[C],
     }).collect();
     let mut labels: BTreeMap<String, u64> = BTreeMap::new();
     let mut hashes: BTreeSet<u64> = BTreeSet::new();
+    let counted: u64 = results.iter().map(|r| r.counted).sum();
+    if counted > 0 { sp.set("counted_not_judged", serde_json::json!(counted)) }
     for (c, r) in cases.iter().zip(results.iter()) {
         *labels.entry(r.label.clone()).or_insert(0) += 1;
         if r.der_hash != 0 { hashes.insert(r.der_hash); }
@@ -2154,7 +2172,7 @@ fn between(lo: Time, x: Time, hi: Time) -> bool { lo <= x && x <= hi }
 fn space_made_inputs(ctx: &Ctx, d: &Dom) {
     use chrono::{Datelike, TimeDelta};
     let sp = ctx.space("build.library_made_inputs",
-        "validity windows from Validity::from_secs / from_duration (positive and negative), Time::{five_minutes_ago, tomorrow, next_week, next_year, years_from_now, now} and Time::years_from_date over 4 dates (one a leap day) x 4 year offsets; serials from Serial::short_random(len 0..=20) and Serial::random; the default signing time of SignedObjectBuilder::new -- each as input to a CA certificate, a CRL, a manifest, a bare signed object and a SignedMessage, judged by the usual oracles and validated at the wall clock (also through the wall-clock variants); the constructors are bracketed by Time::now() before/after and compared with chrono's own calendar arithmetic; non-trivial = distinct (object, input) pairs; outcome = object kind + whole-second / sub-second input");
+        "validity windows from Validity::from_secs / from_duration (positive and negative), Time::{five_minutes_ago, tomorrow, next_week, next_year, years_from_now, now} and Time::years_from_date over 4 dates (one a leap day) x 4 year offsets; serials from Serial::short_random(len 0..=20) and Serial::random; the default signing time of SignedObjectBuilder::new -- each as input to a CA certificate, a CRL, a manifest, a bare signed object and a SignedMessage, judged by the usual oracles and validated at the wall clock (also through the wall-clock variants); the constructors are bracketed by Time::now() before/after and compared with chrono's own calendar arithmetic; a time with a sub-second part (anything derived from Time::now()) is outside the profile -- DER carries whole seconds -- so in this space, and only when the built value's time has a non-zero sub-second part, time-valued accessors are compared at whole seconds; those cases form the outcome class subsecond-input-truncated-by-der and the occurrences (plus from_duration bounds less than 1 s further apart than the duration, from its two clock readings) are counted in counted_not_judged, not judged; non-trivial = distinct (object, input) pairs; outcome = object kind / subsecond-input-truncated-by-der");
     let dates = [Time::utc(1950, 1, 1, 0, 0, 0), Time::utc(2023, 12, 31, 23, 59, 59), Time::utc(2024, 2, 29, 12, 34, 56), Time::utc(2049, 12, 31, 23, 59, 59)];
     let offs = [-5i32, 0, 1, 4];
     // input index -> (name, maker)
@@ -2184,6 +2202,8 @@ fn space_made_inputs(ctx: &Ctx, d: &Dom) {
         |c| {
             let mut r = CaseResult::default();
             r.der_hash = fnv(format!("{}/{}", c.obj, c.input).as_bytes());
+            WHOLE_SECONDS.with(|w| w.set((true, 0)));
+            let mut apart = 0u64;
             let res = guard(|| -> Result<(), String> {
                 let signer = CaseSigner::with_rand(&d.signer, 7, d.serials[5].1);
                 // ---- the input, bracketed by its definition
@@ -2223,11 +2243,17 @@ fn space_made_inputs(ctx: &Ctx, d: &Dom) {
                     _ => { serial = Serial::random(&signer).map_err(|e| e.to_string())? }
                 }
                 let t1 = Time::now();
+                // from_duration reads the clock twice: its bounds are |d| apart up to those two readings
+                if c.input <= 2 {
+                    let d_abs = [86400i64, 365 * 86400, 86400][c.input];
+                    let diff = (*validity.not_after() - *validity.not_before()) - TimeDelta::try_seconds(d_abs).unwrap();
+                    if diff.num_milliseconds().abs() >= 1000 { r.fail("siblings", format!("from_duration: bounds are {} ms further apart than the duration", diff.num_milliseconds())) }
+                    else if !diff.is_zero() { apart += 1 }
+                }
                 for (what, x, off) in &bracket { if !between(t0 + *off, *x, t1 + *off) { r.fail("siblings", format!("{what} = {} is not now{:+}s", x.to_rfc3339(), off.num_seconds())) } }
                 if c.input == 5 && !between(Time::years_from_date(1, *t0), validity.not_after(), Time::years_from_date(1, *t1)) { r.fail("siblings", "next_year() is not years_from_date(1, now)") }
                 if c.input == 6 && !between(Time::years_from_date(10, *t0), validity.not_after(), Time::years_from_date(10, *t1)) { r.fail("siblings", "years_from_now(10) is not years_from_date(10, now)") }
-                let whole = validity.not_before().timestamp_subsec_nanos() == 0 && validity.not_after().timestamp_subsec_nanos() == 0 && c.input != 8;
-                r.label = format!("{} {}", obj_names[c.obj as usize], if whole { "whole-second input" } else { "sub-second input" });
+                r.label = obj_names[c.obj as usize].to_string();
                 // evaluation time: the wall clock for now-based windows, the window start otherwise
                 let contains_now = validity.not_before() <= t1 && t1 <= validity.not_after();
                 let when = if contains_now { Time::now() } else { validity.not_before() };
@@ -2280,6 +2306,9 @@ fn space_made_inputs(ctx: &Ctx, d: &Dom) {
                 Ok(())
             });
             match res { Ok(Ok(())) => {}, Ok(Err(e)) => r.fail("build", e), Err(p) => r.fail("build", p) }
+            let dropped = WHOLE_SECONDS.with(|w| w.replace((false, 0))).1;
+            if dropped > 0 { r.label = "subsecond-input-truncated-by-der".into() }
+            r.counted = dropped + apart;
             r
         });
     sp.done(true, &format!("{} (object, input) pairs", cases.len()));
